@@ -716,24 +716,31 @@ bool Units::equivalent(const UnitsPtr &units1, const UnitsPtr &units2)
 
 UnitsPtr Units::clone() const
 {
-    auto units = create();
+    ImportSourceMap importSourceMap;
 
-    units->setId(id());
-    units->setName(name());
+    return pFunc()->clone(importSourceMap);
+}
 
-    if (isImport()) {
-        units->setImportSource(importSource());
+UnitsPtr Units::UnitsImpl::clone(ImportSourceMap &importSourceMap) const
+{
+    auto units = Units::create();
+
+    units->setId(mUnits->id());
+    units->setName(mUnits->name());
+
+    if (mUnits->isImport()) {
+        units->setImportSource(clonedImportSource(mUnits->importSource(), importSourceMap));
     }
 
-    units->setImportReference(importReference());
+    units->setImportReference(mUnits->importReference());
 
     std::string reference;
     std::string prefix;
     std::string id;
     double exponent;
     double multiplier;
-    for (size_t index = 0; index < pFunc()->mUnitDefinitions.size(); ++index) {
-        unitAttributes(index, reference, prefix, exponent, multiplier, id);
+    for (size_t index = 0; index < mUnitDefinitions.size(); ++index) {
+        mUnits->unitAttributes(index, reference, prefix, exponent, multiplier, id);
         units->addUnit(reference, prefix, exponent, multiplier, id);
     }
 
